@@ -85,10 +85,24 @@ func vexpectPlant(c *Classifier, in vinput, p vplant) (st, et, sl, el int, ok bo
 	return st, et, full.Tokens[st].Line, full.Tokens[et].Line, true
 }
 
+// vminRun: the minimum run length a threshold implies, stated independently of computeQ: the
+// largest n with n mismatch-free words per allowed mismatch, floor(t/(1-t)) in float64 arithmetic
+// (4 at 0.8, 18 at 0.95), at least 1; 10 at threshold 1.0 where the quotient is undefined.
+func vminRun(th float64) int {
+	if th == 1.0 {
+		return 10
+	}
+	n := int(math.Floor(th / (1.0 - th)))
+	if n < 1 {
+		n = 1
+	}
+	return n
+}
+
 func voracleC01(c *Classifier, in vinput, res Results) (what string, checked int) {
 	for _, p := range in.plants {
 		d := c.getIndexedDocument(p.doc.cat, p.doc.name, p.doc.variant)
-		if d == nil || len(d.Tokens) < c.q {
+		if d == nil || len(d.Tokens) < vminRun(c.threshold) {
 			continue
 		}
 		st, et, sl, el, ok := vexpectPlant(c, in, p)
@@ -198,12 +212,13 @@ func TestVerifC01(t *testing.T) {
 	}
 	// minimum length: user-added documents of exactly q, q+1 and 2q words (q = the run length the
 	// threshold implies), alone in the corpus and next to each other, at every threshold
-	for ti, th := range []float64{0.7, 0.8, 0.85, 0.9, 1.0} {
+	for ti, th := range []float64{0.7, 0.8, 0.85, 0.9, 1.0, 0.895, 0.92, 0.949, 0.75, 0.95} {
 		c := NewClassifier(th)
+		mr := vminRun(th)
 		words := []string{"alpha", "bravo", "charlie", "delta", "echo", "foxtrot", "golf", "hotel", "india", "juliet", "kilo", "lima", "mike", "november", "oscar", "papa", "quebec", "romeo", "sierra", "tango", "uniform", "victor", "whiskey", "xray", "yankee", "zulu"}
 		var ds []vdoc
 		at := 0
-		for di, nw := range []int{c.q, c.q + 1, 2 * c.q} {
+		for di, nw := range []int{mr, mr + 1, 2 * mr} {
 			var ws []string
 			for k := 0; k < nw; k++ {
 				ws = append(ws, words[at%len(words)]+strings.Repeat("x", at/len(words)))
@@ -242,7 +257,7 @@ func TestVerifC01(t *testing.T) {
 			}
 			w, k := voracleC01(c, in, res)
 			nchecked += k
-			o.verdict("C01", in.id, w == "", k > 0, fmt.Sprintf("min:%v:%d", th, i), map[string]interface{}{"what": w, "threshold": th, "q": c.q, "input_hex": vclip(hx(in.data))})
+			o.verdict("C01", in.id, w == "", k > 0, fmt.Sprintf("min:%v:%d", th, i), map[string]interface{}{"what": w, "threshold": th, "q": c.q, "min_run": mr, "input_hex": vclip(hx(in.data))})
 			n++
 		}
 	}
@@ -432,6 +447,60 @@ func TestVerifC04(t *testing.T) {
 		}
 		o.verdict("C04", "hist_periodic", what == "", true, "hist_periodic", map[string]interface{}{"what": vclip(what), "input_hex": vclip(hx(in))})
 		o.corr("xproc:match", "periodic", []string{vhash(in)}, first)
+	}
+	// a small user corpus and probes whose score depends on a word being OUTSIDE the corpus vocabulary
+	// (the substitution checks of scoreDiffs see an out-of-vocabulary word as the placeholder, a known
+	// one as itself): calls in between — Match, MatchFrom, Normalize — on texts that carry those words
+	// in every position the tokenizer treats differently (plain, before/after a hyphenated line break,
+	// behind a list marker, in a notice line, as an entity, capitalised) must not make them known
+	{
+		known := "This program is free software; you can redistribute it and/or modify\nit under the terms of the GNU General Public License as published by\nthe Free Software Foundation; either revision two of the License, or\n(at your option) any later revision. You should have received a copy\nof the GNU General Public License along with this program; if not,\nwrite to the Free Software Foundation.\n"
+		mk := func() *Classifier {
+			cc := NewClassifier(0.8)
+			cc.AddContent("License", "FreeSoftwareNotice", "notice.txt", []byte(known))
+			return cc
+		}
+		ck := mk()
+		for wi, w := range []string{"Lesser", "Library", "lesser", "LIBRARY"} {
+			probe := []byte(strings.Replace(known, "GNU General", "GNU "+w+" General", 1))
+			base := vshowResults(ck.Match(probe))
+			lw := strings.ToLower(w)
+			others := []string{
+				"a " + lw + " known word appears in this sentence\n",
+				"a " + lw + " known hyphen-\nated word appears in this unrelated sentence\n",
+				"the word split as " + lw[:3] + "-\n" + lw[3:] + " and more text after it\n",
+				"1. " + lw + "\n  (a) " + lw + " terms\n",
+				"Copyright 2020 " + lw + " authors\n" + lw + "\n",
+				"&#" + fmt.Sprint(int(lw[0])) + ";" + lw[1:] + " and " + strings.ToUpper(lw) + "\n",
+				lw + "-\n",
+				"x-\n" + lw + " y\n",
+			}
+			what := ""
+			for oi, other := range others {
+				for mode := 0; mode < 3 && what == ""; mode++ {
+					switch mode {
+					case 0:
+						ck.Match([]byte(other))
+					case 1:
+						ck.MatchFrom(bytes.NewReader([]byte(other)))
+					default:
+						ck.Normalize([]byte(other))
+					}
+					if got := vshowResults(ck.Match(probe)); got != base {
+						what = fmt.Sprintf("after %s of %q the probe's result changed: %s, before %s", []string{"Match", "MatchFrom", "Normalize"}[mode], other, got, base)
+					}
+				}
+				_ = oi
+			}
+			if what == "" {
+				if got := vshowResults(mk().Match(probe)); got != base {
+					what = fmt.Sprintf("a separately built classifier differs: %s vs %s", got, base)
+				}
+			}
+			id := fmt.Sprintf("hist_dict%d", wi)
+			o.verdict("C04", id, what == "", true, id, map[string]interface{}{"what": vclip(what), "probe": string(probe)})
+			n++
+		}
 	}
 	// AddContent must not modify its argument
 	b := []byte("Some License text HERE\nwith — dashes and &amp; entities\n")
@@ -781,7 +850,41 @@ func vmetaInputs(r *vrand, n int) []vinput {
 			out = append(out, vinput{id: fmt.Sprintf("xc%d", i), data: d.data})
 		}
 	}
+	// quoted list markers, quoted words and a quote behind a hyphen at the end of a line: what follows a
+	// marker's closing dot or a word's trailing hyphen decides whether it is a marker / a split word
+	for i, d := range vnamed("License/BSD-3-Clause/a.txt", "License/Apache-1.1/license.txt", "License/BSD-2-Clause/license.txt", "License/MIT/a.txt") {
+		if vthorough() || i%2 == int(vseed()%2) || i == 0 {
+			out = append(out, vinput{id: fmt.Sprintf("xq%d", i), data: vquoteMarkers(r.fork(uint64(700+i)), d.data)})
+		}
+	}
 	return out
+}
+
+// vquoteMarkers puts ASCII double quotes around every line-initial list marker (a first word ending in
+// '.', ':' or ')'), around about one word in twelve, and behind a hyphen appended to some line ends.
+func vquoteMarkers(r *vrand, in []byte) []byte {
+	return vmapLines(in, func(i int, l string) string {
+		fs := strings.Fields(l)
+		if len(fs) == 0 {
+			return l
+		}
+		for j, w := range fs {
+			last := w[len(w)-1]
+			if strings.Contains(w, "\"") {
+				continue
+			}
+			if j == 0 && (last == '.' || last == ':' || last == ')') && len(w) <= 6 {
+				fs[j] = "\"" + w + "\""
+			} else if r.chance(1, 12) {
+				fs[j] = "\"" + w + "\""
+			}
+		}
+		out := strings.Join(fs, " ")
+		if r.chance(1, 9) {
+			out += " quoted-\""
+		}
+		return out
+	})
 }
 
 func vrunMeta(t *testing.T, prop string) {
@@ -1017,10 +1120,43 @@ func TestVerifC07(t *testing.T) {
 	vloadFiles()
 	cnt := 0
 	var corpusKeys []string
+	var shortDocs []vdoc
+	for _, d := range vcorpus {
+		if nw := len(strings.Fields(string(d.data))); nw >= 60 && nw <= 400 && d.cat == "License" {
+			shortDocs = append(shortDocs, d)
+		}
+	}
 	for i, d := range vpick(r.fork(3), n) {
 		rr := r.fork(uint64(700 + i))
 		var X []byte
-		switch i % 8 {
+		switch i % 9 {
+		case 8:
+			// several licenses laid out the way a minifier or a generated NOTICE file does: the first on
+			// ONE line that also carries the first words of the second, a copyright line, the rest of
+			// the second, then a third — candidates that share lines, at token 0 of X
+			a, b, d3 := shortDocs[rr.intn(len(shortDocs))], shortDocs[rr.intn(len(shortDocs))], shortDocs[rr.intn(len(shortDocs))]
+			if i%2 == 0 {
+				a = vnamed("License/MIT/pristine.txt", "License/ISC/license.txt", "License/Zlib/license.txt")[rr.intn(3)]
+			}
+			bw := strings.Fields(string(b.data))
+			k := 4 + rr.intn(6)
+			var sb strings.Builder
+			sb.WriteString(strings.Join(strings.Fields(string(a.data)), " ") + " " + strings.Join(bw[:k], " ") + "\n")
+			sb.WriteString("Copyright 2020 Foo Bar Inc.\n")
+			for j, w := range bw[k:] {
+				sb.WriteString(w)
+				if j%12 == 11 {
+					sb.WriteByte('\n')
+				} else {
+					sb.WriteByte(' ')
+				}
+			}
+			sb.WriteString("\n")
+			if rr.chance(1, 2) {
+				sb.WriteString("Copyright (c) 2019 Somebody Else\n")
+			}
+			sb.Write(d3.data)
+			X = []byte(sb.String())
 		case 0:
 			X = d.data
 		case 7:
@@ -1051,7 +1187,7 @@ func TestVerifC07(t *testing.T) {
 			ws := strings.Fields(string(d.data))
 			cut := len(ws) * (5 + rr.intn(10)) / 100
 			from := 0
-			if i%8 == 6 && len(ws) > 2*cut+2 {
+			if i%9 == 6 && len(ws) > 2*cut+2 {
 				from = cut + rr.intn(len(ws)-2*cut)
 			}
 			ws = append(append([]string(nil), ws[:from]...), ws[from+cut:]...)
@@ -1113,7 +1249,7 @@ func TestVerifC07(t *testing.T) {
 				vmatchCase(o, c, "full08", corpusKeys, needs[0], X, true)
 				vmatchCase(o, c, "full08", corpusKeys, needs[1], data, true)
 			}
-			o.verdictSigCorr("C07", fmt.Sprintf("%d_%d", i, pi), what == "", len(base.Matches) > 0, fmt.Sprintf("pos:%s:%d", vhash(X), pi), sig, needs, map[string]interface{}{"what": vclip(what), "doc": vkey(d), "kind": i % 8, "x_hex": vclip(hx(X)), "prefix_lines": pl})
+			o.verdictSigCorr("C07", fmt.Sprintf("%d_%d", i, pi), what == "", len(base.Matches) > 0, fmt.Sprintf("pos:%s:%d", vhash(X), pi), sig, needs, map[string]interface{}{"what": vclip(what), "doc": vkey(d), "kind": i % 9, "x_hex": vclip(hx(X)), "prefix_lines": pl})
 			cnt++
 		}
 	}
@@ -1410,6 +1546,19 @@ func vsnapshot(c *Classifier) string {
 	}
 	mix(uint64(len(c.dict.words)))
 	mix(uint64(len(c.dict.indices)))
+	if c.tc != nil {
+		for _, m := range []map[string]bool{c.tc.traceLicenses, c.tc.tracePhases} {
+			var ks []string
+			for k, v := range m {
+				ks = append(ks, fmt.Sprint(k, "=", v))
+			}
+			sort.Strings(ks)
+			for _, b := range []byte(strings.Join(ks, ",")) {
+				mix(uint64(b))
+			}
+			mix(uint64(len(ks)))
+		}
+	}
 	return fmt.Sprintf("%016x", h)
 }
 
@@ -1472,6 +1621,40 @@ func TestVerifC09(t *testing.T) {
 	o.verdict("C09", "concurrent", bad == "", true, "concurrent", map[string]interface{}{"what": vclip(bad), "goroutines": G, "inputs": len(inputs)})
 	snap2 := vsnapshot(c)
 	o.verdict("C09", "snapshot-conc", snap0 == snap2, true, "snapshot-conc", map[string]interface{}{"what": "concurrent Match calls changed the classifier's corpus state", "before": snap0, "after": snap2})
+	// a classifier with a trace configuration (prefix and catch-all license patterns, with and without
+	// traced phases, a Tracer that does nothing): its FIRST calls are concurrent ones — whatever the
+	// trace checks on the Match path look up or remember is shared between the goroutines
+	for ti, tcfg := range []*TraceConfiguration{
+		{TraceLicenses: "License/MIT*,Header/*,License/ISC/license.txt", TracePhases: "", Tracer: func(string, ...interface{}) {}},
+		{TraceLicenses: "*", TracePhases: "*", Tracer: func(string, ...interface{}) {}}} {
+		ct := vclassifier(0.8)
+		ct.SetTraceConfiguration(tcfg)
+		tsnap0 := vsnapshot(ct)
+		tbad := ""
+		var twg sync.WaitGroup
+		for g := 0; g < G; g++ {
+			twg.Add(1)
+			go func(g int) {
+				defer twg.Done()
+				for k := 0; k < len(inputs) && k < 6; k++ {
+					i := (k*5 + g) % len(inputs)
+					t0 := time.Now()
+					got := vshowResults(ct.Match(inputs[i].data))
+					if got != want[i] && time.Since(t0) <= 900*time.Millisecond {
+						mu.Lock()
+						if tbad == "" {
+							tbad = fmt.Sprintf("goroutine %d input %s: %s vs untraced sequential %s", g, inputs[i].id, got, want[i])
+						}
+						mu.Unlock()
+					}
+				}
+			}(g)
+		}
+		twg.Wait()
+		o.verdict("C09", fmt.Sprintf("concurrent-traced%d", ti), tbad == "", true, fmt.Sprintf("concurrent-traced%d", ti), map[string]interface{}{"what": vclip(tbad), "trace_licenses": tcfg.TraceLicenses})
+		tsnap1 := vsnapshot(ct)
+		o.verdict("C09", fmt.Sprintf("snapshot-traced%d", ti), tsnap0 == tsnap1, true, fmt.Sprintf("snapshot-traced%d", ti), map[string]interface{}{"what": "concurrent Match calls changed the traced classifier's state (corpus, dictionary or trace configuration)", "before": tsnap0, "after": tsnap1})
+	}
 	o.stat("C09", map[string]interface{}{"goroutines": G, "inputs": len(inputs), "slow_calls_not_compared": slow})
 }
 
@@ -1603,6 +1786,39 @@ func TestVerifC10(t *testing.T) {
 			}
 			limit = 120 * time.Second
 		}
+	}
+	// a very long line that reaches the word diff against an equally long user document and differs from
+	// it in every second word: the diff library is only bounded by its own 1 s deadline (a crude script
+	// after that), so Match returns within seconds; without that bound the diff is quadratic (minutes)
+	{
+		nw := 150000
+		if vthorough() {
+			nw = 300000
+		}
+		kw := make([]string, nw)
+		iw := make([]string, nw)
+		for i := range kw {
+			w := []byte{}
+			for k := i; ; k /= 26 { // letters only: digits would be cleaned away
+				w = append(w, byte('a'+k%26))
+				if k < 26 {
+					break
+				}
+			}
+			kw[i] = "w" + string(w)
+			iw[i] = kw[i]
+			if i%2 == 1 {
+				iw[i] = "x" + kw[i]
+			}
+		}
+		c := NewClassifier(0.5)
+		c.AddContent("License", "Huge", "license.txt", []byte(strings.Join(kw, " ")))
+		limit = 30 * time.Second
+		if vthorough() {
+			limit = 60 * time.Second
+		}
+		run("huge0.5", c, vinput{id: "scrambled-longline", data: []byte(strings.Join(iw, " "))})
+		limit = 120 * time.Second
 	}
 	o.stat("C10", map[string]interface{}{"calls": n, "thresholds": ths})
 }
